@@ -119,7 +119,7 @@ func WalkNodesInStream$1
   ensures @selected-processed [C06 C12] err == nil && cbError == nil && SEL ==> procLen == old(procLen) + 1 && procTime == store(old(procTime), old(procLen), T) && procSrc == store(old(procSrc), old(procLen), ref(n))
   ensures @unselected-skipped [C06 C12] err == nil && cbError == nil && !SEL ==> procLen == old(procLen) && procTime == old(procTime) && procSrc == old(procSrc)
   ensures @at-most-one [C06 C12] (procLen == old(procLen) && procTime == old(procTime) && procSrc == old(procSrc)) || (procLen == old(procLen) + 1 && procTime == store(old(procTime), old(procLen), procTime[old(procLen)]) && procSrc == store(old(procSrc), old(procLen), procSrc[old(procLen)]))
-  ghost before call 1 Process { set procTime := store(procTime, procLen, t); set procSrc := store(procSrc, procLen, ref(node)); set procLen := procLen + 1 }
+  ghost before call every Process { set procTime := store(procTime, procLen, t); set procSrc := store(procSrc, procLen, ref(node)); set procLen := procLen + 1 }
   ensures @rep-buf [C17 C08] r == old(r) && RepBuf(r) == old(RepBuf(r))
   ensures @rep-sink [C17] BufStep(RepBuf(r))
   ensures @rep-inv [C17 C08] RepInv(r)
